@@ -21,6 +21,12 @@ def main():
             tau = [float(t) for t in m.tau]
             C, D, B = np.array(m.C), np.array(m.D).reshape(-1), np.array(m.B).reshape(-1)
             out.append(dict(what="tables", degree=d, scheme=scheme, ok=True, tau=tau, C=C.reshape(-1, order="F").tolist(), D=D.tolist(), B=B.tolist()))
+            # CasADi's own tables (for the validation of the casadi model; independent of rockit)
+            import casadi
+            ctau = casadi.collocation_points(d, scheme)
+            cC, cD, cB = casadi.collocation_coeff(ctau)
+            out.append(dict(what="casadi-tables", degree=d, scheme=scheme, ok=True, tau=[float(t) for t in ctau], C=np.array(cC).reshape(-1, order="F").tolist(),
+                            D=np.array(cD).reshape(-1).tolist(), B=np.array(cB).reshape(-1).tolist()))
             # nodes: shifted Legendre roots / Radau IIA points
             xs = 2 * np.array(tau) - 1
             cf = np.zeros(d + 1); cf[d] = 1.0
@@ -48,7 +54,18 @@ def main():
             out.append(dict(what="B-satisfies-quadrature-order-conditions-up-to-%s" % ("2d-1" if scheme == "radau" else "2d"), degree=d, scheme=scheme, ok=bool(worst < 1e-9),
                             detail="worst deviation %.3g for m=%s (sum_j B_j tau_j^m vs 1/(m+1)); B=%s" % (worst, wm, np.round(B, 6).tolist())))
             out.append(dict(what="B-integrates-constants-exactly", degree=d, scheme=scheme, ok=bool(abs(sum(B) - 1) < 1e-9), detail="sum B = %.12g" % sum(B)))
-    print(json.dumps(out))
+    # a method object depends on its own arguments only: same tables when the objects are built in another order
+    first = {(r["degree"], r["scheme"]): r for r in out if r["what"] == "tables"}
+    for d in range(7, 0, -1):
+        for scheme in ("legendre", "radau"):
+            m = DirectCollocation(degree=d, scheme=scheme, N=1)
+            r = first[(d, scheme)]
+            same = [float(t) for t in m.tau] == r["tau"] and np.array(m.C).reshape(-1, order="F").tolist() == r["C"] and \
+                np.array(m.D).reshape(-1).tolist() == r["D"] and np.array(m.B).reshape(-1).tolist() == r["B"]
+            out.append(dict(what="tables-independent-of-construction-history", degree=d, scheme=scheme, ok=bool(same),
+                            detail="tau/C/D/B of a second object built after objects of other schemes and degrees %s" % ("are identical" if same else "DIFFER from the first object's")))
+    return out
 
 
-main()
+if __name__ == "__main__":
+    print(json.dumps(main()))
